@@ -605,6 +605,15 @@ impl<'a> Sim<'a> {
             self.res.hit("probe.fetch.result_after_reconnect");
         }
         let outcome = if aborted { Outcome::ErrIo } else { outcome };
+        // the real worker refuses to fetch a repository that is not seeded (`Allowed::from_config` fails with a
+        // policy error before anything is written)
+        let seeded = self.nodes[node].svc.as_ref().map(|s| s.policies().is_seeding(&rid).unwrap_or(false)).unwrap_or(false);
+        let outcome = if matches!(outcome, Outcome::Ok) && !seeded {
+            self.res.hit("probe.worker.fetch_refused_not_seeded");
+            Outcome::ErrIo
+        } else {
+            outcome
+        };
         let result: Result<FetchResult, FetchError> = match outcome {
             Outcome::Ok => {
                 // the worker wrote to storage before reporting
